@@ -282,6 +282,71 @@ func c15long(rate, burst int, gap time.Duration, size, n int) *explore.Scenario 
 	return sc
 }
 
+// c15tinyQueue: the byte queue holds only a few bytes and zero-length datagrams pile up behind a head that waits
+// for tokens: they occupy no bytes, so none of them may be discarded ("only when the byte queue is full"), and
+// whatever is forwarded leaves in arrival order.  The filter forwards only when something arrives (it has no
+// timer), so two later arrivals drive it; no datagram is REQUIRED to have left - the forwarded sequence must be a
+// gap-free prefix of the arrivals.
+func c15tinyQueue(queue, zeros, bound int) *explore.Scenario {
+	name := fmt.Sprintf("tbf byte queue of %d bytes, %d zero-length datagrams behind a blocked 1-byte head", queue, zeros)
+	sc := &explore.Scenario{Name: name, Bound: bound}
+	sc.Cfg.Horizon = 60 * time.Second
+	sc.Make = func() (func(), func(*zzvsched.Exec) (string, *explore.Violation)) {
+		rec := vnet.ZZNewRecNIC()
+		finished := false
+		body := func() {
+			f, err := vnet.NewTokenBucketFilter(rec, vnet.TBFRate(8*vnet.KBit), vnet.TBFMaxBurst(1), vnet.TBFQueueSizeInBytes(queue))
+			if err != nil {
+				panic(err)
+			}
+			zzvsched.WaitIdle()
+			push := func(p string) { vnet.ZZPush(f, vnet.ZZUDPChunk("10.0.0.1:1", "10.0.0.2:2", []byte(p))) }
+			// two 1-byte datagrams: the first spends the burst, the second waits for a token (1 byte per ms)
+			push("A")
+			push("B")
+			for i := 0; i < zeros; i++ {
+				push("")
+			}
+			push("C")
+			// at most B, C, D, E (4 bytes) are ever queued: below the queue size, nothing may be discarded
+			zzvsched.Sleep(2 * time.Millisecond)
+			push("D")
+			zzvsched.Sleep(2 * time.Millisecond)
+			push("E")
+			finished = true
+		}
+		check := func(ex *zzvsched.Exec) (string, *explore.Violation) {
+			var got []string
+			for _, g := range rec.Got {
+				got = append(got, fmt.Sprintf("%q", g.Payload))
+			}
+			out := strings.Join(got, ",")
+			if len(ex.Panics) > 0 {
+				return out, &explore.Violation{Sig: "C15 panic", Msg: name + ": panic: " + ex.Panics[0].Value}
+			}
+			if ex.HorizonHit {
+				return out + " HORIZON", nil
+			}
+			if !finished {
+				return out, &explore.Violation{Sig: "C15 blocked", Msg: name + fmt.Sprint(": the arrival path blocked: ", ex.Parked)}
+			}
+			want := []string{`"A"`, `"B"`}
+			for i := 0; i < zeros; i++ {
+				want = append(want, `""`)
+			}
+			want = append(want, `"C"`, `"D"`, `"E"`)
+			for i, g := range got {
+				if i >= len(want) || g != want[i] {
+					return out, &explore.Violation{Sig: "C15 discarded-or-reordered tiny-queue", Msg: fmt.Sprintf("%s: arrivals A, B, %d empty datagrams, C, D, E (never more than 4 bytes queued) were forwarded as [%s]: position %d is not the next arrival, so a datagram was discarded or overtaken although the byte queue was not full", name, zeros, out, i)}
+				}
+			}
+			return out, nil
+		}
+		return body, check
+	}
+	return sc
+}
+
 // c15twoPaths: two threads hand datagrams to one filter (a router with two senders does this).  A backlogged
 // filter, gaps of a third of the bucket's fill time; the envelope is judged whenever only ARRIVAL threads were
 // held up (a sender that is slow to hand over only delays its datagram; what must not happen is that time is
@@ -384,6 +449,8 @@ func init() {
 				}
 			}
 			out = append(out, c15twoPaths(8*vnet.KBit, 1000, 2), c15twoPaths(1*vnet.MBit, 8000, 2))
+			// a byte queue of a few bytes with more (zero-length) datagrams waiting than it has bytes
+			out = append(out, c15tinyQueue(5, 7, 1), c15tinyQueue(6, 12, 0))
 			// long regular streams: gaps that give a fractional per-arrival credit in every direction
 			ln := 1500
 			if tier == "thorough" {
@@ -399,7 +466,7 @@ func init() {
 			}
 			return out
 		},
-		Rule: "rates {8 kbit/s, 1 Mbit/s} x bursts {1000, 8000 B} x queue sizes {2000, 50000 B} x every arrival script of 3 (thorough 4) datagrams over gaps {0,1ms,99ms,101ms,1s} and sizes {0,1,B/2,B,B+1}, optionally with a concurrent Set(rate/4), Set(burst/4) or Set(burst/4) before any traffic followed by concurrent no-op Sets, Set(the rate in force, twice, on a backlogged filter with gaps of a third of the bucket's fill time) placed at every scheduling point, or with Close called right behind the last arrival while the loop may still be forwarding, or from a separate thread at any point of the arrivals; two concurrent arrival paths into a backlogged filter (ideal-bucket oracle; sender stalls allowed); every pair of forwarded datagrams bounds an interval for which the byte count is compared with burst + rate x length",
+		Rule: "rates {8 kbit/s, 1 Mbit/s} x bursts {1000, 8000 B} x queue sizes {2000, 50000 B} x every arrival script of 3 (thorough 4) datagrams over gaps {0,1ms,99ms,101ms,1s} and sizes {0,1,B/2,B,B+1}, optionally with a concurrent Set(rate/4), Set(burst/4) or Set(burst/4) before any traffic followed by concurrent no-op Sets, Set(the rate in force, twice, on a backlogged filter with gaps of a third of the bucket's fill time) placed at every scheduling point, or with Close called right behind the last arrival while the loop may still be forwarding, or from a separate thread at any point of the arrivals; two concurrent arrival paths into a backlogged filter (ideal-bucket oracle; sender stalls allowed); every pair of forwarded datagrams bounds an interval for which the byte count is compared with burst + rate x length; plus a byte queue of 5/6 bytes with 7/12 zero-length datagrams behind a 1-byte head waiting for a token, driven by two later arrivals (forwarded sequence = gap-free prefix of the arrivals)",
 		Assumptions: []string{"across a reconfiguration the larger rate/burst applies unless the change completed before the interval began (most lenient sound reading)",
 			"a discard counts as 'queue full' when queued bytes + packet length reach the configured queue size"}})
 }
